@@ -327,7 +327,9 @@ def source_shape(prop, relpath, qualname, description, expected_fragments, forbi
         src = _re.sub(r"\bu(['\"])", r"\1", ast.unparse(ast.Module(body=fi.body, type_ignores=[])))      # u'' prefixes are dropped
     except Exception as e:
         return static_obligation('%s/%s::%s/%s' % (prop, relpath.split('/')[-1], qualname, description), False, qualname, relpath, 'function missing: %s' % e, hard=False)
-    missing = [f for f in expected_fragments if f not in src] + ['forbidden: ' + f for f in forbidden if f in src]
+    ws = lambda t: ' '.join(t.split())          # layout (indentation, line breaks) is not part of the shape
+    nsrc = ws(src)
+    missing = [f for f in expected_fragments if ws(f) not in nsrc] + ['forbidden: ' + f for f in forbidden if ws(f) in nsrc]
     return static_obligation('%s/%s::%s/%s' % (prop, relpath.split('/')[-1], qualname, description), not missing, qualname,
                              '%s:%d-%d' % (relpath, fi.lines[0], fi.lines[1]), 'expected fragments not found: %s' % missing, hard=False)
 
